@@ -70,24 +70,42 @@ func (w *watchAggregator) Report(s core.Sample) {
 	w.inner.Report(s)
 }
 
+// engStats: shots per instance (instances register at Bind).
+type engStats struct {
+	mu     sync.Mutex
+	counts map[int]int64
+}
+
+func (st *engStats) add(inst int, n int64) {
+	st.mu.Lock()
+	st.counts[inst] += n
+	st.mu.Unlock()
+}
+
 type engGun struct {
-	json   bool
-	aggr   core.Aggregator
-	inst   int
-	n      uint64
-	counts []int64
+	json  bool
+	aggr  core.Aggregator
+	inst  int
+	n     uint64
+	shot  time.Duration
+	stats *engStats
 }
 
 func (g *engGun) Bind(a core.Aggregator, deps core.GunDeps) error {
 	g.aggr = a
 	g.inst = deps.InstanceID
+	g.stats.add(g.inst, 0)
 	return nil
 }
 
+// Shoot takes <shot> (a slow exchange that does not watch the context), then reports.
 func (g *engGun) Shoot(core.Ammo) {
+	if g.shot > 0 {
+		time.Sleep(g.shot)
+	}
 	id := uint64(g.inst)<<idShift | g.n
 	g.n++
-	atomic.AddInt64(&g.counts[g.inst], 1)
+	g.stats.add(g.inst, 1)
 	if g.json {
 		g.aggr.Report(mkJSONSample(id))
 	} else {
@@ -95,7 +113,11 @@ func (g *engGun) Shoot(core.Ammo) {
 	}
 }
 
-// engine <fmt> <instances> <ammo> <Q> <bufsize>
+// engine <fmt> <instances> <ammo> <Q> <bufsize> [<ramp-per-sec> <shot-us>]
+//
+// With the two optional fields the startup profile is composite(once <instances>, const <ramp>/s
+// for a minute) - instances keep being started while the run goes on, until the ammo runs out -
+// and every shot takes <shot-us> before it reports.
 //
 // The real engine runs one pool to its normal end (out of ammo): <instances> instances of a gun that
 // reports one sample per shot into the REAL aggregator (phout | phoutid | json; destination
@@ -113,6 +135,11 @@ func runEngine(f []string) (obs string) {
 	ammo, _ := strconv.Atoi(f[3])
 	q, _ := strconv.Atoi(f[4])
 	bufsize, _ := strconv.Atoi(f[5])
+	ramp, shotUs := 0, 0
+	if len(f) > 7 {
+		ramp, _ = strconv.Atoi(f[6])
+		shotUs, _ = strconv.Atoi(f[7])
+	}
 	fs := afero.NewMemMapFs()
 	var inner core.Aggregator
 	switch format {
@@ -134,15 +161,21 @@ func runEngine(f []string) (obs string) {
 		return "unknown-format"
 	}
 	w := &watchAggregator{inner: inner, done: make(chan struct{})}
-	counts := make([]int64, instances)
+	stats := &engStats{counts: map[int]int64{}}
+	var startup core.Schedule = schedule.NewOnce(int64(instances))
+	if ramp > 0 {
+		startup = schedule.NewComposite(schedule.NewOnce(int64(instances)), schedule.NewConst(float64(ramp), time.Minute))
+	}
 	conf := engine.InstancePoolConfig{
 		ID:              "p",
 		Provider:        &limitedProvider{left: int64(ammo)},
 		Aggregator:      w,
-		NewGun:          func() (core.Gun, error) { return &engGun{json: format == "json", counts: counts}, nil },
+		NewGun: func() (core.Gun, error) {
+			return &engGun{json: format == "json", stats: stats, shot: time.Duration(shotUs) * time.Microsecond}, nil
+		},
 		RPSPerInstance:  false,
 		NewRPSSchedule:  func() (core.Schedule, error) { return schedule.NewUnlimited(time.Hour), nil },
-		StartupSchedule: schedule.NewOnce(int64(instances)),
+		StartupSchedule: startup,
 	}
 	metrics := engine.Metrics{Request: &monitoring.Counter{}, Response: &monitoring.Counter{}, InstanceStart: &monitoring.Counter{}, InstanceFinish: &monitoring.Counter{}}
 	eng := engine.New(zap.NewNop(), metrics, engine.Config{Pools: []engine.InstancePoolConfig{conf}})
@@ -179,8 +212,19 @@ func runEngine(f []string) (obs string) {
 		}
 	}
 	var cs []string
-	for _, c := range counts {
-		cs = append(cs, strconv.FormatInt(c, 10))
+	stats.mu.Lock()
+	maxInst := -1
+	for i := range stats.counts {
+		if i > maxInst {
+			maxInst = i
+		}
+	}
+	for i := 0; i <= maxInst; i++ {
+		cs = append(cs, strconv.FormatInt(stats.counts[i], 10))
+	}
+	stats.mu.Unlock()
+	if len(cs) == 0 {
+		cs = []string{"-"}
 	}
 	data, err := afero.ReadFile(fs, "out")
 	if err != nil {
@@ -208,6 +252,23 @@ func genEngine(r *vh.Rand, tier string) []string {
 			q = ammo + 1 // no drops: the engine's handling of an aggregator error is not this property's subject
 		}
 		out = append(out, fmt.Sprintf("engine %s %d %d %d %d", format, instances, ammo, q, r.PickInt([]int{0, 4096, 5000, 65536})))
+	}
+	// instances started over time, slow shots, ammo far below what the schedules would allow:
+	// the ammo runs out while the start is still going on and other shots are in flight
+	m := 6
+	if tier == "thorough" {
+		m = 60
+	}
+	for i := 0; i < m; i++ {
+		format := []string{"phout", "json", "phoutid"}[i%3]
+		instances := r.Range(1, 4)
+		ammo := r.Range(instances, 30)
+		q := r.Range(1, 64)
+		if format == "json" {
+			q = ammo + 1
+		}
+		out = append(out, fmt.Sprintf("engine %s %d %d %d %d %d %d", format, instances, ammo, q, r.PickInt([]int{0, 4096}),
+			r.PickInt([]int{20, 50, 100, 300}), r.PickInt([]int{2000, 5000, 20000, 50000})))
 	}
 	return out
 }
